@@ -928,10 +928,6 @@ def _m_foreign(case, i):
 
 def _m_oracle(case, obs):
     specs = case["indexes"]
-    for i, keys in enumerate(obs["keys"]):
-        ks = [k for _, k in keys]
-        if len(set(ks)) != len(ks):
-            return None  # key collision among the texts in use
     first_known = None
     for k, pi, ph, op, sx in _m_ops(case):
         o = obs["ops"][k]
@@ -1148,9 +1144,23 @@ def model_requests(case, obs):
     return [dict(base, m="C19.replay", max=case["max"], reqs=reqs, directs=directs, trace=obs["trace"])]
 
 
+def _inj_problem(tables):
+    """hypothesis `InjOn g U` of cached_correct / batch_safety / cached_correct_multi, checked on the real key generator:
+    distinct texts in use must have distinct keys"""
+    for tbl in tables:
+        seen = {}
+        for t, k in tbl:
+            if k in seen and seen[k] != t:
+                return f"hypothesis InjOn fails on the real key generator: texts {seen[k]!r} and {t!r} have the same cache key {k!r}"
+            seen[k] = t
+    return None
+
+
 def compare(case, obs, mouts):
     if case["kind"] == "multi":
-        return _m_compare(case, obs, mouts)
+        return _inj_problem(obs["keys"]) or _m_compare(case, obs, mouts)
+    if _inj_problem([obs["keys"]]):
+        return _inj_problem([obs["keys"]])
     m = mouts[0]
     if case["kind"] == "fn":
         if any(isinstance(r, dict) for r in obs["results"]):
@@ -1193,9 +1203,9 @@ def compare(case, obs, mouts):
 def oracle(case, obs):
     if case["kind"] == "multi":
         return _m_oracle(case, obs)
-    keys = dict(map(tuple, obs["keys"]))
-    if len(set(keys.values())) != len(keys):
-        return None  # a key collision among the texts in use: outside the property's modelled range
+    # NOTE: no excuse for key collisions: the texts of the alphabet are distinct and md5 / hash / hex keys of distinct short
+    # texts are distinct, so colliding keys can only come from a key derivation that drops part of the text - that is a
+    # violation (the returned vectors show it), not a case outside the property.
     if case["kind"] == "fn":
         for ci, (texts, res) in enumerate(zip(case["calls"], obs["results"])):
             if isinstance(res, dict):
